@@ -118,7 +118,8 @@ func (self ValueRange) iterReset() {
 }
 
 func (self ValueRange) IntoIter() func() (Value, bool) {
-	return self.iterNext
+	// Every loop owns its cursor
+	return (*NewValueRange(*self.Start, *self.End, self.EndIsInclusive)).(ValueRange).iterNext
 }
 
 func NewValueRange(start Value, end Value, endIsInclusive bool) *Value {
